@@ -50,15 +50,17 @@ package bluemonday
 //@   reveal[C14] wfRegex
 //@   requires wfp(p) && p.initialized && r != nil && w != nil
 //@   requires[C16] !outFailed
-//@   modifies ghost outFailed, outN, outLast, outCount, tzCur, tzPrev, tzErr, sanEl, sanRes, lastErr, lastBuf, gD
+//@   modifies ghost outFailed, outN, outLast, outCount, tzCur, tzPrev, tzErr, sanEl, sanRes, lastErr, lastBuf, gD, gSP, gName, gBare, gKept, gCnt, gSkip, gTopBare, gTopKept
 //@   modifies nothing
 //@   ensures[C16] outFailed ==> result != nil
 //@   ensures[C16] result == nil ==> tzErr == io.EOF
 //@   requires[textpres] !p.allowUnsafe
 //@   requires[wellnested] gD == 0
+//@   requires[paired] gD == 0 && gSP == 0 && sel(gCnt, 0) == 0 && sel(gSkip, 0) == 0
 //@   requires[strict] (forall e string :: !(e in p.elsAndAttrs)) && (forall r *regexp.Regexp :: !(r in p.elsMatchingAndAttrs)) && !p.allowComments && !p.allowUnsafe
 //@   at-call (*html.Tokenizer).Next
 //@     assume[wellnested] gD >= 0 && gD == old(gD) + ite(tzCur.Type == 2 && skipEl(p, tzCur.Data), 1, 0) - ite(tzCur.Type == 3 && skipEl(p, tzCur.Data), 1, 0)
+//@     assume[paired] stackStep(p, tzCur)
 //@     assume[clean] cleanTok(p, tzCur)
 //@     assume[textpres] isTagTok(tzCur) ==> normalise(tzCur.Data) != "script" && normalise(tzCur.Data) != "style" && !(tzCur.Data in p.setOfElementsToSkipContent)
 //@   at-call (io.StringWriter).WriteString(w, s)
@@ -69,8 +71,23 @@ package bluemonday
 //@     assert[C07,clean] s == TokString(token, elems(token.Attr)) && token.Type == tzCur.Type && token.Data == tzCur.Data && len(token.Attr) == len(tzCur.Attr) && (forall i int :: 0 <= i && i < len(token.Attr) ==> token.Attr[i] == tzCur.Attr[i])
 //@   at-call (io.StringWriter).WriteString(w, s) where s from (html.Token).String
 //@     assert[C02] (token.Type == 2 || token.Type == 4) ==> (len(token.Attr) == 0 && bareOK(p, token.Data)) || (len(token.Attr) > 0 && sanEl == token.Data && sanRes == token.Attr)
+//@   before "closingTagToSkipStack = append(closingTagToSkipStack, token.Data)"
+//@     sets[C09,paired] gBare = ite(isVoid(token.Data), gBare, upd(gBare, gSP - 1, true))
+//@     sets[C09,paired] gCnt = ite(isVoid(token.Data), gCnt, upd(gCnt, gSP, sel(gCnt, gSP - 1) + 1))
+//@   before#2 "if _, err := buff.WriteString(token.String()); err != nil {"
+//@     sets[C09,paired] gKept = ite(isVoid(token.Data), gKept, upd(gKept, gSP - 1, true))
+//@   before "if skipClosingTag && closingTagToSkipStack[len(closingTagToSkipStack)-1] == token.Data {"
+//@     lemma[C09,paired] gTopBare ==> skipClosingTag && closingTagToSkipStack[len(closingTagToSkipStack)-1] == token.Data
+//@     lemma[C09,paired] skipClosingTag && closingTagToSkipStack[len(closingTagToSkipStack)-1] == token.Data ==> gTopBare || (exists k int :: 0 <= k && k < gSP && sel(gBare, k) && sel(gName, k) == token.Data)
 //@   before "switch token.Type {"
 //@     lemma[C08,wellnested] token == tzCur && gD >= 0 && gD == skippingElementsCount + ite(token.Type == 2 && skipEl(p, token.Data), 1, 0) - ite(token.Type == 3 && skipEl(p, token.Data), 1, 0) && (skipElementContent <==> skippingElementsCount > 0)
+//@     lemma[C09,paired] token == tzCur && gSP >= 0 && gD == sel(gSkip, gSP)
+//@     lemma[C09,paired] token.Type == 3 ==> sel(gCnt, gSP + 1) == sel(gCnt, gSP) + ite(gTopBare, 1, 0) && sel(gSkip, gSP + 1) == sel(gSkip, gSP) + ite(skipEl(p, token.Data), 1, 0) && len(closingTagToSkipStack) == sel(gCnt, gSP + 1) && skippingElementsCount == sel(gSkip, gSP + 1)
+//@     lemma[C09,paired] token.Type == 3 && gTopBare ==> closingTagToSkipStack[sel(gCnt, gSP)] == token.Data && elAllowed(p, token.Data) && !(isScriptStyle(normalise(token.Data)) && !p.allowUnsafe)
+//@     lemma[C09,paired] token.Type == 3 ==> (gTopKept <==> keptSpec(p, token.Data, gTopBare, sel(gSkip, gSP)))
+//@     lemma[C09,paired] token.Type == 2 && !isVoid(token.Data) ==> sel(gSkip, gSP) == sel(gSkip, gSP - 1) + ite(skipEl(p, token.Data), 1, 0) && skippingElementsCount == sel(gSkip, gSP - 1) && sel(gName, gSP - 1) == token.Data && !sel(gBare, gSP - 1) && !sel(gKept, gSP - 1) && sel(gCnt, gSP) == sel(gCnt, gSP - 1) && len(closingTagToSkipStack) == sel(gCnt, gSP)
+//@     lemma[C09,paired] !(token.Type == 2 && !isVoid(token.Data)) && token.Type != 3 ==> skippingElementsCount == sel(gSkip, gSP) && len(closingTagToSkipStack) == sel(gCnt, gSP)
+//@     lemma[C09,paired] token == tzCur && gD >= 0 && gD == skippingElementsCount + ite(token.Type == 2 && skipEl(p, token.Data), 1, 0) - ite(token.Type == 3 && skipEl(p, token.Data), 1, 0) && (skipElementContent <==> skippingElementsCount > 0)
 //@   loop 0 "for {"
 //@     invariant wfp(p) && p.initialized
 //@     invariant skipClosingTag <==> len(closingTagToSkipStack) > 0
@@ -80,6 +97,17 @@ package bluemonday
 //@     invariant[C06,textpres] stepOK(p, tzCur, outN, outLast)
 //@     invariant[C07,clean] !skipElementContent && skippingElementsCount == 0 && !skipClosingTag && mostRecentlyStartedToken != "script" && mostRecentlyStartedToken != "style" && (tzCur.Type == 99 || outN == 1)
 //@     invariant[C08,wellnested] gD >= 0 && skippingElementsCount == gD && (skipElementContent <==> gD > 0)
+//@     invariant[C09,paired] gD >= 0 && skippingElementsCount == gD && (skipElementContent <==> gD > 0)
+//@     invariant[C09,paired] gSP >= 0 && sel(gCnt, 0) == 0 && sel(gSkip, 0) == 0 && gD == sel(gSkip, gSP) && len(closingTagToSkipStack) == sel(gCnt, gSP)
+//@     invariant[C09,paired] forall i int :: 0 <= i && i < gSP ==> sel(gCnt, i + 1) == sel(gCnt, i) + ite(sel(gBare, i), 1, 0) && sel(gSkip, i + 1) == sel(gSkip, i) + ite(skipEl(p, sel(gName, i)), 1, 0)
+//@     invariant[C09,paired] forall i int, j int :: 0 <= i && i <= j && j <= gSP ==> sel(gCnt, i) <= sel(gCnt, j)
+//@     invariant[C09,paired] forall i int :: 0 <= i && i <= gSP ==> sel(gSkip, i) >= 0 && sel(gCnt, i) >= 0
+//@     invariant[C09,paired] forall m int :: 0 <= m && m < len(closingTagToSkipStack) ==> (exists k int :: 0 <= k && k < gSP && sel(gBare, k) && sel(gCnt, k) == m && closingTagToSkipStack[m] == sel(gName, k))
+//@     invariant[C09,paired] forall i int :: 0 <= i && i < gSP && sel(gBare, i) ==> elAllowed(p, sel(gName, i)) && !(isScriptStyle(normalise(sel(gName, i))) && !p.allowUnsafe)
+//@     invariant[C09,paired] forall i int :: 0 <= i && i < gSP && sel(gBare, i) ==> closingTagToSkipStack[sel(gCnt, i)] == sel(gName, i)
+//@     invariant[C09,paired] forall i int :: 0 <= i && i < gSP ==> (sel(gKept, i) <==> keptSpec(p, sel(gName, i), sel(gBare, i), sel(gSkip, i)))
+//@     invariant[C09,paired] tzCur.Type == 3 && gTopKept ==> outN == 1 && outLast == TokString(tzCur, elems(tzCur.Attr))
+//@     invariant[C09,paired] tzCur.Type == 3 && !gTopKept ==> outN == 0 || (outN == 1 && outLast == " ")
 //@     invariant[C08,wellnested] forall i int :: 0 <= i && i < len(closingTagToSkipStack) ==> elAllowed(p, closingTagToSkipStack[i])
 //@     invariant[C08,wellnested] tzCur.Type == 1 && gD == 0 && mostRecentlyStartedToken != "script" && mostRecentlyStartedToken != "style" ==> outN == 1 && outLast == TokString(tzCur, elems(tzCur.Attr))
 //@   loop 1 "for regex := range p.elsMatchingAndAttrs"
@@ -101,7 +129,7 @@ package bluemonday
 //@   sets lastBuf = result
 //@   requires wfp(p) && p.initialized && r != nil
 //@   requires[C16] !outFailed
-//@   modifies ghost outFailed, outN, outLast, outCount, tzCur, tzPrev, tzErr, sanEl, sanRes, lastErr, lastBuf, gD
+//@   modifies ghost outFailed, outN, outLast, outCount, tzCur, tzPrev, tzErr, sanEl, sanRes, lastErr, lastBuf, gD, gSP, gName, gBare, gKept, gCnt, gSkip, gTopBare, gTopKept
 //@   modifies nothing
 //@   ensures result != nil && fresh(result)
 //@   ensures[C16] tzErr != io.EOF ==> bufEmpty(result)
@@ -111,7 +139,7 @@ package bluemonday
 //@   ensures[C15] result == lastBuf
 //@   requires wfp(p) && p.initialized && r != nil
 //@   requires[C16] !outFailed
-//@   modifies ghost outFailed, outN, outLast, outCount, tzCur, tzPrev, tzErr, sanEl, sanRes, lastErr, lastBuf, gD
+//@   modifies ghost outFailed, outN, outLast, outCount, tzCur, tzPrev, tzErr, sanEl, sanRes, lastErr, lastBuf, gD, gSP, gName, gBare, gKept, gCnt, gSkip, gTopBare, gTopKept
 //@   modifies nothing
 //@   ensures result != nil && fresh(result)
 //@   ensures[C16] tzErr != io.EOF ==> bufEmpty(result)
@@ -120,7 +148,7 @@ package bluemonday
 //@   ensures[C15] result == lastErr
 //@   requires wfp(p) && p.initialized && r != nil && w != nil
 //@   requires[C16] !outFailed
-//@   modifies ghost outFailed, outN, outLast, outCount, tzCur, tzPrev, tzErr, sanEl, sanRes, lastErr, lastBuf, gD
+//@   modifies ghost outFailed, outN, outLast, outCount, tzCur, tzPrev, tzErr, sanEl, sanRes, lastErr, lastBuf, gD, gSP, gName, gBare, gKept, gCnt, gSkip, gTopBare, gTopKept
 //@   modifies nothing
 //@   ensures[C16] outFailed ==> result != nil
 //@   ensures[C16] result == nil ==> tzErr == io.EOF
@@ -322,7 +350,7 @@ package bluemonday
 //@ func (*bluemonday.Policy).Sanitize
 //@   requires wfp(p) && p.initialized
 //@   requires[C16] !outFailed
-//@   modifies ghost outFailed, outN, outLast, outCount, tzCur, tzPrev, tzErr, sanEl, sanRes, lastErr, lastBuf, gD
+//@   modifies ghost outFailed, outN, outLast, outCount, tzCur, tzPrev, tzErr, sanEl, sanRes, lastErr, lastBuf, gD, gSP, gName, gBare, gKept, gCnt, gSkip, gTopBare, gTopKept
 //@   modifies nothing
 //@   ensures[C15] strings.TrimSpace(s) == "" ==> result == s
 //@   ensures[C15] strings.TrimSpace(s) != "" ==> result == bufStr(elems(lastBuf.buf), off(lastBuf.buf) + lastBuf.off, len(lastBuf.buf) - lastBuf.off)
@@ -330,7 +358,7 @@ package bluemonday
 //@ func (*bluemonday.Policy).SanitizeBytes
 //@   requires wfp(p) && p.initialized
 //@   requires[C16] !outFailed
-//@   modifies ghost outFailed, outN, outLast, outCount, tzCur, tzPrev, tzErr, sanEl, sanRes, lastErr, lastBuf, gD
+//@   modifies ghost outFailed, outN, outLast, outCount, tzCur, tzPrev, tzErr, sanEl, sanRes, lastErr, lastBuf, gD, gSP, gName, gBare, gKept, gCnt, gSkip, gTopBare, gTopKept
 //@   modifies nothing
 //@   ensures[C15] len(bytes.TrimSpace(b)) == 0 ==> result == b
 //@   ensures[C15] len(bytes.TrimSpace(b)) != 0 ==> string(result) == bufStr(elems(lastBuf.buf), off(lastBuf.buf) + lastBuf.off, len(lastBuf.buf) - lastBuf.off)
